@@ -68,6 +68,9 @@ func genTable(r *rand.Rand, name string, style string) *Table {
 		t.Cols = append(t.Cols, &Col{Name: "c", Type: "INTEGER", Role: "c"})
 		k := Check{Col: "c", Lo: int64(r.IntN(3))}
 		if r.IntN(3) > 0 {
+			k.Name = "ck_" + name + "_c"
+		}
+		if r.IntN(3) > 0 {
 			k.HasHi, k.Hi = true, k.Lo+int64(4+r.IntN(8))
 		}
 		t.Checks = append(t.Checks, k)
@@ -647,7 +650,7 @@ func (g *gen) ddlPhase(sessions int) *Phase {
 		p := &TxPlan{Sess: sess, Seq: g.seq[sess], Mode: "auto"}
 		g.seq[sess]++
 		tagBase := fmt.Sprintf("s%d.t%d", sess, p.Seq)
-		switch r.IntN(7) {
+		switch r.IntN(10) {
 		case 0: // add a column (sometimes together with DML using it, sometimes in a tx that then fails)
 			g.zcount++
 			c := &Col{Name: fmt.Sprintf("z%d", g.zcount), Type: pick(r, "INTEGER", "VARCHAR"), Max: 3, Role: "z"}
@@ -737,6 +740,31 @@ func (g *gen) ddlPhase(sessions int) *Phase {
 			}
 			p.Stmts = append(p.Stmts, &Stmt{Kind: "create-index", Table: t.Name, IdxCols: []string{x.Name}})
 			t.Idx = append(t.Idx, []string{x.Name})
+		case 7, 8: // DROP CONSTRAINT inside a transaction that does not commit: the CHECK must stay in force for everybody
+			var named []Check
+			for _, k := range t.Checks {
+				if k.Name != "" {
+					named = append(named, k)
+				}
+			}
+			if len(named) == 0 {
+				continue
+			}
+			k := named[r.IntN(len(named))]
+			p.Mode = pick(r, "block", "steps")
+			p.Stmts = append(p.Stmts, &Stmt{Kind: "drop-constraint", Table: t.Name, Col: k.Name})
+			if r.IntN(2) == 0 {
+				// a violating row goes in while the constraint is gone for this transaction
+				if ok := g.insertStmt(t, "insert", "check", tagBase+".q1", 1); ok.Aim == "check" {
+					ok.Aim = "" // admissible inside this transaction
+					p.Stmts = append(p.Stmts, ok)
+				}
+			}
+			if bad := g.insertStmt(t, "insert", pick(r, "null", "len", "type"), tagBase+".q2", 1); bad.Aim != "" && r.IntN(2) == 0 {
+				p.Stmts = append(p.Stmts, bad) // the transaction is aborted by a failing statement ...
+			} else {
+				p.Rollback = true // ... or rolled back
+			}
 		default: // drop a constrained column: refusal expected
 			var cands []*Col
 			for _, c := range t.Cols {
